@@ -743,6 +743,32 @@ def rule_i(ctx):
                     'granted' if good else
                     'the feedback channel is %s: a source attaching later is handed credit that was already spent' %
                     ast.unparse(st.value))
+        # cancel(): the source is told through the channel it listens on - completing the feedback subject while
+        # the source's subscription to it is still alive (disposed first, the completion reaches nobody and a
+        # credit-aware source keeps producing for the outstanding credit)
+        pubc = m.classes['InternalBackPressurePublisher'][-1]
+        canc = pubc.methods.get('cancel')
+        if canc is None:
+            raise AnalysisError('C20.i: InternalBackPressurePublisher.cancel vanished')
+        okc, whyc = True, ''
+        npaths = 0
+        for p in ctx.paths(canc, pubc, inline_depth=1):
+            if p.outcome != 'return':
+                continue
+            npaths += 1
+            calls = [e for e in p.events if e.kind == 'call']
+            comp = [e for e in calls if e.data.get('name') == 'on_completed' and e.data.get('recv') is not None and
+                    'feedback' in repr(strip_epoch(e.data['recv'].term)).lower()]
+            if not comp:
+                okc, whyc = False, 'cancel() does not complete the feedback subject: the source is never told'
+                continue
+            early = [e for e in calls if e.seq < comp[0].seq and e.data.get('name') in ('dispose', 'unsubscribe')]
+            if early:
+                okc, whyc = False, ('cancel() disposes a subscription (line %s) before it completes the feedback '
+                                    'subject: the completion - what stops a credit-aware source - reaches nobody' %
+                                    early[0].line)
+        rep.add('C20.i', '%s InternalBackPressurePublisher.cancel / the source is told to stop' % pkg, canc,
+                okc and npaths > 0, whyc or 'feedback.on_completed() with every subscription still in place')
         rep.add('C20.i', '%s back_pressure_publisher / credit comes from request(n) only' % pkg,
                 (sites[0][0].file, sites[0][1].lineno), ok,
                 detail or 'the only on_next on a credit Subject is request(n) forwarding its n (%d site)' % len(sites))
